@@ -4,6 +4,8 @@ Per module that exposes a public generator calc_check_digit(s)[_x]:
  C05.wired     validate() reaches the generator through resolved calls (the validator does not carry a
                private copy of the formula); the generic algorithm modules are C06; iban/eu.at_02 go
                through mod_97_10 on both sides with the same rearrangement (sibling rule).
+ C05.padding   a generator offered beside a compact() that zero-pads short numbers gives the same check character for a
+               payload and for the payload behind the padding zero (right-aligned weights);
  C05.compare   every use of a generator on the validation path is a comparison of its result with a slice
                of the number whose failure raises InvalidChecksum (`!=`, `not in` for the documented
                alternatives, `endswith`); the payload handed to the generator is a slice that excludes the
@@ -152,6 +154,62 @@ def reach(prog, mn, fn, seen=None, depth=0):
     return seen
 
 
+def endswith_width(rep, cfile, cfn, st, gkey):
+    """number.endswith(generator(...)) compares as many characters as the generator happens to return: it is the comparison
+    of the check position(s) only when every result of the generator has one and the same length."""
+    from ..strabs.run import generator_result_lengths
+    lens = generator_result_lengths(gkey[0], gkey[1])
+    fixed = lens is not None and len(lens) == 1 and lens[0][0] == lens[0][1]
+    rep.check(fixed, 'C05.compare', cfile, cfn.name, src(st.test)[:100], st.lineno,
+              'the number is compared with endswith() against %s.%s(), whose result is %s: a two-character result such as \'10\' is accepted '
+              'when the number happens to end in it, although the check position alone does not match what the generator returns'
+              % (gkey[0].replace('stdnum.', ''), gkey[1], 'not always a string' if lens is None else 'a string of %s characters' % ' or '.join(
+                  '%s..%s' % l if l[0] != l[1] else str(l[0]) for l in lens)),
+              what='%s: endswith() against a generator of fixed width %s' % (src(st.test)[:60], lens))
+
+
+def padding_invariance(rep, prog, tier):
+    """C05.padding: where compact() puts a zero in front of a short number (`number = '0' + number` under a length test) and
+    the module offers a public generator, validate() checks p + c as '0' + p + c: generator(p) must equal generator('0' + p),
+    i.e. the generator's weighted-sum normal forms at both payload lengths agree position by position counted from the right
+    and the extra leading position only adds a multiple of its digit (zero for the padding digit)."""
+    from ..strabs.run import get_interp
+    from ..strabs.wsnf import normal_form
+    I = get_interp()
+    D = I.B.cls_of_chars('0123456789')
+    n = 0
+    for mn in prog.number_modules():
+        m = prog.mods[mn]
+        cfn = m.funcs.get('compact')
+        gens = [g for g in m.funcs if GEN.match(g) and not g.startswith('_')]
+        if cfn is None or not gens:
+            continue
+        pads = []
+        for st in ast.walk(cfn):
+            if isinstance(st, ast.If) and isinstance(st.test, ast.Compare) and len(st.test.ops) == 1 and isinstance(st.test.ops[0], ast.Eq) \
+                    and src(st.test.left) == 'len(%s)' % cfn.args.args[0].arg and isinstance(st.test.comparators[0], ast.Constant):
+                for b in st.body:
+                    if isinstance(b, ast.Assign) and src(b.value) == "'0' + %s" % cfn.args.args[0].arg:
+                        pads.append((st.test.comparators[0].value, st))
+        for short, st in pads:
+            for g in gens:
+                n += 1
+                file = rel(m.path)
+                # payload lengths: the short number and the padded one, both without the check character
+                a = normal_form(I, mn, g, [D] * (short - 1))
+                b = normal_form(I, mn, g, [D] * short)
+                if a is None or b is None:
+                    rep.undecide('C05.padding', '%s %s' % (file, g), 'the generator is not a weighted sum the interpreter can normalise')
+                    continue
+                same = a.M == b.M and a.const == b.const and a.table == b.table and list(b.weights[1:]) == list(a.weights)
+                rep.check(same, 'C05.padding', file, g, '%s with %d and %d digits' % (g, short - 1, short), m.funcs[g].lineno,
+                          '%s.compact() pads numbers of %d characters with a leading zero, but %s() weighs a payload of %d digits %s (mod %d) and the same '
+                          'digits behind a leading zero %s (mod %d): the check character it returns for the short form is not the one validate() expects'
+                          % (mn.replace('stdnum.', ''), short, g, short - 1, list(a.weights), a.M, list(b.weights[1:]), b.M),
+                          what='%s.%s: weights %s right-aligned at both lengths' % (mn, g, list(a.weights)))
+    return n
+
+
 def check(tier):
     rep = Report('C05', tier, level='other',
                  rule_text='call-graph rule (validator reaches the generator), compare-and-raise shape of every generator use on the validation '
@@ -216,12 +274,12 @@ def check(tier):
                 elif isinstance(st, ast.If) and raises_checksum(st) is False and 'endswith' in src(st.test) and any(
                         isinstance(x, ast.Raise) for x in st.body):
                     compared += 1
-                    rep.ok('C05.compare', '%s:%d %s' % (cfile, st.lineno, cfn.name), src(st.test)[:100])
+                    endswith_width(rep, cfile, cfn, st, gkey)
                 elif cfn.name == g or GEN.match(cfn.name) or cfn.name.startswith(('to_', 'from_', 'format', 'convert', 'calc_')) or cm != vm and cfn.name != 'validate':
                     continue        # used to build a number, not to accept one
                 elif any('endswith' in src(x) for x in ast.walk(st) if isinstance(x, ast.Call)) and raises_checksum(st):
                     compared += 1
-                    rep.ok('C05.compare', '%s:%d %s' % (cfile, st.lineno, cfn.name), src(st.test)[:100])
+                    endswith_width(rep, cfile, cfn, st, gkey)
             rep.check(compared >= 1, 'C05.compare', file, 'validate', 'uses of %s on the validation path' % g, vfn.lineno,
                       '%s() is reached from validate() but its result is never compared with the number under `raise InvalidChecksum`' % g,
                       what='%s compared at %d site(s)' % (g, compared))
@@ -235,6 +293,9 @@ def check(tier):
                          'a path of validate() returns the number without passing any check digit comparison: every check character is accepted on that path')
         if not ung:
             rep.ok('C05.gate', '%s validate' % file, 'every return is dominated by a checksum gate')
+    npad = padding_invariance(rep, prog, tier)
+    if npad < 1:
+        rep.error('C05.padding matched no zero-padding compact() with a public generator (gr.vat confirmed on the reference tree)')
     # the eight generic algorithm modules: generator/validator agreement is the GEN clause of the ALG engine (C06)
     from . import c06
     sub = Report('C05', tier)
